@@ -35,26 +35,58 @@ func (kgraph *KVGraph) deleteGraphIndex(graph string) {
 	}
 }
 
-// unindexLabel removes the label-index entry of a deleted element and, when no
-// other element carries that label any more, the label's term, so that label
-// scans and label listings no longer report it. kind is "v" or "e".
-func (kgraph *KVGraph) unindexLabel(graph, kind, label, id string) error {
+// labelUnindexKeys lists the label-index keys to delete together with the
+// elements in gone (element id -> label; kind is "v" or "e"): the entry of every
+// element and, when no other element carries a label any more, the label's
+// term, so that label scans and label listings no longer report it. The keys
+// are computed up front so that the caller can remove them in the same
+// transaction as the elements themselves.
+func labelUnindexKeys(it kvi.KVIterator, graph, kind string, gone map[string]string) [][]byte {
 	field := fmt.Sprintf("%s.%s.label", graph, kind)
-	term, ttype := kvindex.GetTermBytes(label)
-	if err := kgraph.kv.Delete(kvindex.EntryKey(field, ttype, term, id)); err != nil {
-		return err
+	out := [][]byte{}
+	dropped := map[string]bool{}
+	labels := map[string]bool{}
+	for id, label := range gone {
+		term, ttype := kvindex.GetTermBytes(label)
+		key := kvindex.EntryKey(field, ttype, term, id)
+		dropped[string(key)] = true
+		labels[label] = true
+		out = append(out, key)
 	}
-	remaining := false
-	prefix := kvindex.EntryValuePrefix(field, ttype, term)
+	for label := range labels {
+		term, ttype := kvindex.GetTermBytes(label)
+		prefix := kvindex.EntryValuePrefix(field, ttype, term)
+		remaining := false
+		for it.Seek(prefix); it.Valid() && bytes.HasPrefix(it.Key(), prefix); it.Next() {
+			if !dropped[string(it.Key())] {
+				remaining = true
+				break
+			}
+		}
+		if !remaining {
+			out = append(out, kvindex.TermKey(field, ttype, term))
+		}
+	}
+	return out
+}
+
+// unindexLabel removes the label-index entry of an element that no longer
+// carries label and, when no other element carries it any more, the label's
+// term - both in one transaction. kind is "v" or "e".
+func (kgraph *KVGraph) unindexLabel(graph, kind, label, id string) error {
+	var keys [][]byte
 	kgraph.kv.View(func(it kvi.KVIterator) error {
-		it.Seek(prefix)
-		remaining = it.Valid() && bytes.HasPrefix(it.Key(), prefix)
+		keys = labelUnindexKeys(it, graph, kind, map[string]string{id: label})
 		return nil
 	})
-	if !remaining {
-		return kgraph.kv.Delete(kvindex.TermKey(field, ttype, term))
-	}
-	return nil
+	return kgraph.kv.Update(func(tx kvi.KVTransaction) error {
+		for _, k := range keys {
+			if err := tx.Delete(k); err != nil {
+				return err
+			}
+		}
+		return nil
+	})
 }
 
 func normalizePath(path string) string {
